@@ -707,6 +707,29 @@ static bool plain_field(const MV& m, std::string& text) {
         default: return false;
     }
 }
+// A table in the sense of RFC 4180: an array of scalars / rows of scalars / objects of scalars, or an object of scalars /
+// columns of scalars.  Anything nested deeper becomes a "multi-valued field" (subfield_delimiter, an extension with no
+// RFC 4180 reading) and is not judged.
+static bool is_scalar(const MV& m) { return m.k != MV::Arr && m.k != MV::Obj; }
+static bool csv_table(const MV& v) {
+    if (v.k == MV::Arr) {
+        for (auto& e : v.a) {
+            if (is_scalar(e)) continue;
+            if (e.k == MV::Arr) { for (auto& f : e.a) if (!is_scalar(f)) return false; }
+            else { for (auto& kv : e.o) if (!is_scalar(kv.second)) return false; }
+        }
+        return true;
+    }
+    if (v.k == MV::Obj) {
+        for (auto& kv : v.o) {
+            if (is_scalar(kv.second)) continue;
+            if (kv.second.k != MV::Arr) return false;
+            for (auto& f : kv.second.a) if (!is_scalar(f)) return false;
+        }
+        return true;
+    }
+    return true;
+}
 // rows the pushed value denotes, if it has one of the two plain shapes; false = shape not modelled
 static bool csv_rows(const MV& v, std::vector<std::vector<std::string>>& rows) {
     if (v.k != MV::Arr || v.tag != 0 || v.a.empty()) return false;
@@ -828,6 +851,7 @@ static void run_sequence(const Seq& q, bool replay, const std::string& only_cfg)
         uint64_t h = fnv(mvt, fnv(r.out, fnv(CCFG[c])));
         if (!replay && !g_seen.insert(h).second) { out().count("deduplicated"); continue; }
         if (M.ill) { out().count("abstained_illtyped"); out().cls("csv:ill-typed"); continue; }
+        if (!csv_table(M.v)) { out().count("abstained_csv_nested"); out().cls("csv:multi-valued-fields-not-judged"); continue; }
         std::vector<std::vector<std::string>> recs, rows;
         if (!parse_rfc4180(r.out, recs)) { viol(CCFG[c], q, "illformed", "output cannot be read as RFC 4180 CSV: " + r.out.substr(0, 200) + "  pushed: " + mv_text(M.v).substr(0, 200)); continue; }
         out().count("traces_validated");
